@@ -204,6 +204,16 @@ func minimise(worker, prop string, sc map[string]interface{}, class, sig string,
 				go func(i int) {
 					defer wg.Done()
 					results[i-base] = evalScenario(worker, prop, cands[i], race, 20)
+					if race && sameViolation(results[i-base], class, sig) {
+						// what the race detector reports depends on its shadow memory: a candidate is
+						// accepted only if it fails in two further fresh processes as well
+						for k := 0; k < 2; k++ {
+							if again := evalScenario(worker, prop, cands[i], race, 20); !sameViolation(again, class, sig) {
+								results[i-base] = again
+								break
+							}
+						}
+					}
 				}(i)
 			}
 			wg.Wait()
